@@ -262,6 +262,9 @@ func runJobs(jobs []*Job, nworkers int, progress bool) ([]*JobResult, error) {
 					// budgets: a root job and all the sub-jobs split off it share 2x the root's time limit (a broken tree can
 					// make a harness explode; the check must still end), and the whole check has a wall budget
 					budget := time.Duration(2*job.TimeoutS) * time.Second
+					if checkTier == "quick" && budget > 10*time.Minute {
+						budget = 10 * time.Minute
+					}
 					if time.Now().After(globalDeadline) || (job.TimeoutS > 0 && rootAge > budget) {
 						res = &JobResult{ID: job.ID, Harness: job.Harness, Module: mod, Params: job.Params,
 							Inconclusive: map[string]int{"time budget exhausted before this subtree was explored": 1}, Ended: map[string]int{}}
@@ -332,7 +335,7 @@ func runJobs(jobs []*Job, nworkers int, progress bool) ([]*JobResult, error) {
 	return results, firstErr
 }
 
-// checkBudget: wall budget of one check run (VERIF_BUDGET_S overrides; default 20 min quick, 5 h thorough).
+// checkBudget: wall budget of one check run (VERIF_BUDGET_S overrides; default 15 min quick, 5 h thorough).
 var checkTier = "quick"
 
 func checkBudget() time.Duration {
@@ -344,7 +347,7 @@ func checkBudget() time.Duration {
 	if checkTier == "thorough" {
 		return 5 * time.Hour
 	}
-	return 20 * time.Minute
+	return 15 * time.Minute
 }
 
 func unionSorted(a, b []string) []string {
